@@ -1,4 +1,26 @@
-From Coq Require Import String.
-From VP Require Import Base.Tactics Raft.Model Raft.Arms Raft.Gen_Commands Raft.ProofsSM Raft.Props.
-Check (C35_apply_all_app : forall l1 l2 s, apply_all (l1 ++ l2) s = apply_all l2 (apply_all l1 s)).
-Print Assumptions C35_apply_all_app.
+From Coq Require Import String Sorting.Sorted.
+From VP Require Import Base.Tactics Raft.Model Raft.Arms Raft.Gen_Commands Raft.ProofsSM Raft.ProofsLog Raft.ProofsRecover Raft.Props.
+Open Scope Z_scope.
+Check (C36_recover :
+  forall (G : list entry) (ops : list op) (d : disk),
+    ground_ok G -> wf_hist G rstore0 ops -> In d (crash_disks ops rstore0) ->
+    r_disk (ropen d) = d /\
+    r_sm (ropen d) = sm_apply (gprefix G (acnt (d_applied d))) smv0).
+Print Assumptions C36_recover.
+Check (C36_recover_state :
+  forall G ops d,
+    ground_ok G -> wf_hist G rstore0 ops -> In d (crash_disks ops rstore0) ->
+    sv_state (r_sm (ropen d)) = apply_all (cmds_of (gprefix G (acnt (d_applied d)))) cstate0).
+Print Assumptions C36_recover_state.
+Check (C36_restart_invisible :
+  forall G ops,
+    ground_ok G -> wf_hist G rstore0 ops -> ropen (r_disk (rs_run ops rstore0)) = rs_run ops rstore0).
+Print Assumptions C36_restart_invisible.
+Check (C36_example_conforming :
+  ground_ok ex_G /\ wf_hist ex_G rstore0 ex_ops).
+Print Assumptions C36_example_conforming.
+Check (C36_example_nontrivial :
+  exists d, nth_error (crash_disks ex_ops rstore0) 4 = Some d /\
+            map fst (d_log d) = [2] /\
+            pipeline_groups (sv_state (r_sm (ropen d))) = [(5%N, JNum 1)]).
+Print Assumptions C36_example_nontrivial.
